@@ -1,0 +1,29 @@
+//! Verification hooks. Only compiled with `--cfg bmwill_anemo_verif`.
+//!
+//! Nothing in here changes the behaviour of the crate: the items either substitute the UDP socket
+//! by one supplied by a test harness (thread-local, opt-in per thread) or expose crate-private
+//! functions to the harness unchanged.
+
+use std::cell::RefCell;
+use std::sync::Arc;
+
+type SocketFactory = Box<dyn Fn(std::net::UdpSocket) -> Arc<dyn quinn::AsyncUdpSocket>>;
+
+thread_local! {
+    static SOCKET_FACTORY: RefCell<Option<SocketFactory>> = const { RefCell::new(None) };
+}
+
+/// Install (or clear) the socket factory of the calling thread. Every `Endpoint` created on this
+/// thread afterwards uses the socket the factory returns instead of the UDP socket it was given.
+pub fn set_socket_factory(factory: Option<SocketFactory>) {
+    SOCKET_FACTORY.with(|f| *f.borrow_mut() = factory);
+}
+
+pub(crate) fn wrap_socket(
+    socket: std::net::UdpSocket,
+) -> Result<Arc<dyn quinn::AsyncUdpSocket>, std::net::UdpSocket> {
+    SOCKET_FACTORY.with(|f| match f.borrow().as_ref() {
+        Some(factory) => Ok(factory(socket)),
+        None => Err(socket),
+    })
+}
